@@ -16,7 +16,9 @@ Runs the REAL sheXer (from $VERIF_REPO) and compares it with itself:
   (d)           (a)-(c) repeated with examples_mode in {None, "all"} and detect_minimal_iri in {False, True}.
   (b')          ShExC-only sequences with disable_or_statements=False x allow_redundant_or in {True, False} (SHACL rejects choice
                 statements) and sequences low/high/low threshold on shape maps with detect_minimal_iri=True, remove_empty_shapes=False
-                whose label is empty at threshold 1 and whose instance IRIs share a prefix ending inside a token.
+                whose label is empty at threshold 1 and whose instance IRIs share a prefix ending inside a token; classes whose
+                instances share only the scheme and part of the host (no stem) under changing thresholds; the prefix 'sh' bound
+                to a non-SHACL namespace (control 'shop'): SHACL call followed by ShExC calls, PREFIX lines == those of the arguments.
 
 Finding keys
     C18:file-vs-string:<ShEx|Shacl|profile>          file text differs from the returned string (fresh Shapers)
@@ -25,6 +27,7 @@ Finding keys
     C18:repeat-call:<shexc-text|shacl-graph|profile> a call differs from the fresh control for a reason not explained below
     C18:repeat-call:minimal-iri                      only the [<stem>~] / sh:pattern of a shape differs from the fresh control
     C18:repeat-call:crash:<function>                 a call raises on the used Shaper although it returns on a fresh one
+    C18:[repeat-call:]prefix-lines                   PREFIX lines of a ShExC text are not those determined by the arguments
     C18:stale-threshold                              ... and agrees once the earlier calls use this call's threshold
     C18:stale-format                                 ... and agrees once the earlier calls use this call's output format
     C18:shaper-interference:<A|B>-output-differs     a Shaper sharing argument objects with another one differs from its control
@@ -425,6 +428,18 @@ def _same_but_min_iri(fmt, a, b):
     return rdflib.compare.isomorphic(ga, gb)
 
 
+def expected_prefix_lines(cfg):
+    """PREFIX lines of a ShExC text as determined by the constructor arguments alone (N-Triples input: nothing is parsed in):
+    the caller's namespaces in their order, then the shapes namespace under the first free default prefix."""
+    ns = _default_ns(cfg)
+    shapes_ns = cfg.get("shapes_namespace", U.SHAPES_NS)
+    free = [p for p in ("", "weso-s", "shapes", "w-shapes") if p not in ns.values()]
+    if not free:
+        return None                                     # a random prefix is legitimate
+    ns[shapes_ns] = free[0]
+    return ["PREFIX %s: <%s>" % (p, n) for n, p in ns.items()]
+
+
 def _classify(R, nt, cfg, seq, i, got, want, tmp):
     """Key and explanation for: call i of seq returned `got`, the fresh control returned `want`."""
     call = seq[i]
@@ -493,6 +508,15 @@ def check_seq(case, R):
                     if i == 0 and "~]  AND" in want and "remove_empty_shapes" in cfg:
                         R.stats["first_calls_printing_stem_of_kept_empty_shape"] += 1
                 if same(fmt, got, want):
+                    if fmt == SHEX and "namespaces_dict" in cfg:
+                        exp = expected_prefix_lines(cfg)
+                        have = [ln for ln in got.split("\n") if ln.startswith("PREFIX ")]
+                        if exp is not None and have != exp:
+                            R.emit("C18:repeat-call:prefix-lines" if i else "C18:prefix-lines",
+                                   "call %d of [%s]: the PREFIX lines are not those determined by the arguments (also on a fresh Shaper): "
+                                   "surplus %r, missing %r" % (i + 1, "; ".join(call_text(c) for c in seq[:i + 1]),
+                                                               [x for x in have if x not in exp], [x for x in exp if x not in have]),
+                                   dict(case, seqs=[seq[:i + 1]]), observed=have, expected=exp)
                     continue
                 key, why = _classify(R, nt, cfg, seq, i, got, want, tmp)
                 R.emit(key, "call %d of [%s] on one Shaper differs from the same call on a fresh Shaper: %s"
@@ -668,6 +692,41 @@ def gen_cases(tier, seed):
                     seqs += [[hi], [lo, hi], [hi, lo], [lo, hi, lo], [hi, hi], [mid, hi], [hi, mid, hi]]
             seqs += [[rng.choice(ALPHABET) for _ in range(3)] for _ in range(max(4, sz["sample"] // 4))]
             cases.append({"kind": "seq", "origin": "min-iri-shape-map", "graph": {"nt": U.to_nt(T)}, "cfg": cfg, "seqs": seqs})
+    # ---- (b3) no usable stem: instances share the scheme and part of the host only; calls with different thresholds -------------
+    hosts = (("example.org/a1", "example.com/b2", "example.net/c3"), ("exa.org/x", "exb.org/y", "exc.org/z"),
+             ("a.example/1", "b.example/2", "c.example/3"))
+    for gi, hs in enumerate(hosts):
+        T = []
+        for i, h in enumerate(hs):
+            x = M.IRI(("http://" if gi != 2 else "https://") + h)
+            T += [M.Triple(x, M.RDF_TYPE, M.IRI(G.CLASS_A)), M.Triple(x, G.PROP_P, M.Lit("x"))]
+            if i:
+                T.append(M.Triple(x, G.PROP_Q, M.IRI(G.EX + "s1")))
+        T += [M.Triple(M.IRI(G.EX + "s1"), M.RDF_TYPE, M.IRI(G.CLASS_B)), M.Triple(M.IRI(G.EX + "s2"), M.RDF_TYPE, M.IRI(G.CLASS_B)),
+              M.Triple(M.IRI(G.EX + "s1"), G.PROP_P, M.Lit("1", dt=M.XSD_INTEGER))]
+        for cfg in ({"all_classes_mode": True, "detect_minimal_iri": True},
+                    {"target_classes": [G.CLASS_A, G.CLASS_B], "detect_minimal_iri": True, "inverse_paths": True}):
+            seqs = []
+            for fmt in (SHEX, SHACL):
+                for sink in ("string", "file"):
+                    lo, mid, hi = [{"op": "shex", "fmt": fmt, "sink": sink, "t": t} for t in THRESHOLDS]
+                    seqs += [[lo, hi], [hi, lo], [lo, mid, hi], [mid, lo], [hi, mid, lo], [lo, lo, hi]]
+            seqs += [[rng.choice(ALPHABET) for _ in range(3)] for _ in range(max(4, sz["sample"] // 4))]
+            cases.append({"kind": "seq", "origin": "scheme-only-prefix", "graph": {"nt": U.to_nt(T)}, "cfg": cfg, "seqs": seqs})
+    # ---- (b4) the prefix 'sh' bound to a non-SHACL namespace (control: 'shop'): SHACL call, then ShExC calls ----------------------
+    shop = "http://shop.example/"
+    for gi, (origin, T) in enumerate(fam[:max(3, len(fam) // 2)]):
+        subj = [s_ for (s_, p_, o_) in T if isinstance(s_, M.IRI)][0]
+        T = T + [M.Triple(subj, shop + "price", M.Lit("3", dt=M.XSD_INTEGER))]
+        for label in ("sh", "shop"):
+            cfg = dict(_mode(gi), namespaces_dict=dict(G.NAMESPACES, **{shop: label}))
+            seqs = []
+            for s1 in ("string", "file"):
+                for s2 in ("string", "file"):
+                    sa, sb = {"op": "shex", "fmt": SHACL, "sink": s1, "t": 0}, {"op": "shex", "fmt": SHEX, "sink": s2, "t": 0}
+                    seqs += [[sa, sb], [sa, sb, sb], [sb, sa, sb], [sa, dict(sb, t=0.5)]]
+            seqs += [[rng.choice(ALPHABET) for _ in range(3)] for _ in range(max(4, sz["sample"] // 4))]
+            cases.append({"kind": "seq", "origin": "sh-prefix-taken", "graph": {"nt": U.to_nt(T)}, "cfg": cfg, "seqs": seqs})
     # ---- (a) sinks ------------------------------------------------------------------------------
     calls = [{"op": "shex", "fmt": SHEX, "sink": "string", "t": 0}, {"op": "shex", "fmt": SHACL, "sink": "string", "t": 0},
              {"op": "shex", "fmt": SHEX, "sink": "string", "t": 0.5}, {"op": "profile", "sink": "string"}]
@@ -936,7 +995,41 @@ def _mutants():
         fp.FixedPropChoiceStatementSerializer.serialize_statement_with_indent_level = serialize_statement_with_indent_level
         return lambda: setattr(fp.FixedPropChoiceStatementSerializer, "serialize_statement_with_indent_level", old)
 
+    def scheme_guard_on_received_prefix():
+        import shexer.core.shexing.strategy.minimal_iri_strategy.annotate_min_iri_strategy as am
+        old = am.AnnotateMinIriStrategy._determine_suitable_iri_pattern
+
+        def _determine_suitable_iri_pattern(self, longest_common_prefix):
+            if longest_common_prefix is None:
+                return None
+            backwards_str = longest_common_prefix[::-1]
+            last_sep_char = am._SEP_CHARS.search(backwards_str)
+            if last_sep_char is None:
+                return None
+            candidate_min_iri = backwards_str[last_sep_char.start():][::-1]
+            if len(candidate_min_iri) < 3:
+                return None
+            if am._BARE_SCHEME.match(longest_common_prefix):        # guard on the RECEIVED prefix, not on the cut stem
+                return None
+            return candidate_min_iri
+        am.AnnotateMinIriStrategy._determine_suitable_iri_pattern = _determine_suitable_iri_pattern
+        return lambda: setattr(am.AnnotateMinIriStrategy, "_determine_suitable_iri_pattern", old)
+
+    def shacl_copies_table_only_when_sh_is_free():
+        old_init = sh.ShaclSerializer.__init__
+
+        def __init__(self, target_file, shapes_list, namespaces_dict=None, **kw):
+            old_init(self, target_file, shapes_list, namespaces_dict=namespaces_dict, **kw)
+            if namespaces_dict is not None and "sh" in namespaces_dict.values():     # 'will not add sh': no defensive copy
+                self._namespaces_dict = namespaces_dict
+        sh.ShaclSerializer.__init__ = __init__
+        return lambda: setattr(sh.ShaclSerializer, "__init__", old_init)
+
     return [
+        ("_determine_suitable_iri_pattern tests the only-a-scheme guard on the received prefix (annotation not idempotent)",
+         "C18:repeat-call:minimal-iri", scheme_guard_on_received_prefix),
+        ("ShaclSerializer copies the namespace table only when the prefix 'sh' is free (else writes 'shacl' into the Shaper's table)",
+         "C18:stale-format", shacl_copies_table_only_when_sh_is_free),
         ("yield_base_shapes cuts the minimal IRI only for shapes with statements (fresh call at t=1 prints the raw prefix)", "C18:repeat-call:minimal-iri",
          min_iri_only_for_non_empty_shapes),
         ("FixedPropChoiceStatementSerializer rewrites the alternatives of an OR statement in place", "C18:repeat-call:shexc-text",
